@@ -6,8 +6,11 @@ open TCV TCV.TestM
 
 abbrev V := Json
 
-/-- `[name]` = no default, `[name, v]` = default `v` -/
+/-- `[name]` = no default, `[name, v]` = default `v`; `{"n": name, "k": name_in_config, "d"?: v}` when the config key differs -/
 def declOf (j : Json) : R (Decl V) := do
+  if let .ok n := j.getObjValAs? String "n" then
+    let k ← str j "k"
+    return { name := chars n, default := (j.getObjVal? "d").toOption, key := chars k }
   let a ← j.getArr?
   if h : a.size = 1 then pure { name := chars (← a[0].getStr?), default := none }
   else if h : a.size = 2 then pure { name := chars (← a[0].getStr?), default := some a[1] }
